@@ -23,12 +23,12 @@ PENDING = "check planned (DESIGN 0) but not built yet in this tree; moves to che
 
 CHECKS = {
  "C16": dict(engine="thrsim", design_ref="DESIGN.md 3",
-   technique="deterministic simulation: real threads under a seeded baton scheduler (sys.settrace line pre-emption), seeded search over schedules, per-call oracle from the tree's own sequential runs",
-   text="Seeded exploration of thread interleavings at athlib source-line granularity (<=3 forced pre-emptions, 2-3 threads, first-call / warmed-up / cache-at-limit base states) over the public scoring, age-grading and validation calls; every call's outcome must be one it has in some call-atomic sequential order of the same tree. The recorded failing schedules of the repaired defects are re-executed first (regression corpus). Uncommitted changes in athlib/ steer about half of the scenarios to the function families that execute the changed files. Sampling, not proof: quick ~4.3e4 schedules over 1800 scenarios, thorough ~7.7e5 over 24000; evidence reports distinct interleavings reached, where switches landed and which executed lines never saw one.",
-   note="Trusts CPython's line tracing and fork() as a fresh process; pre-emption only at athlib lines (not inside jsonschema/stdlib or within a line); locks, conditions, events and semaphores reachable from athlib are replaced by cooperative ones (a wait nobody can end is reported as deadlock); the oracle is the same tree run sequentially, so purely sequential bugs are invisible here."),
+   technique="deterministic simulation: real threads under a seeded baton scheduler (pre-emption at sys.settrace line events, and inside a line at sys.monitoring instruction events), seeded search over schedules, per-call oracle from the tree's own sequential runs, sequential epilogue calls after every schedule",
+   text="Seeded exploration of thread interleavings at athlib source-line granularity (<=3 forced pre-emptions, 2-3 threads, first-call / warmed-up / cache-at-limit base states) over the public scoring, age-grading and validation calls; every call's outcome must be one it has in some call-atomic sequential order of the same tree. After the threads of a schedule have finished, 2-7 further calls (the same ones, neighbours, fresh ones) are made sequentially and judged by the same oracle, so state a race left half-built or overwritten is seen even when the racing calls themselves were lucky. One schedule in nine pre-empts INSIDE a source line, before its n-th bytecode instruction (a test and its use written on one line). The recorded failing schedules of the repaired defects are re-executed first (regression corpus). Uncommitted changes in athlib/ steer about half of the scenarios to the function families that execute the changed files. Sampling, not proof: quick ~4.9e4 schedules over 1800 scenarios, thorough ~8.6e5 over 24000; evidence reports distinct interleavings reached, where switches landed and which executed lines never saw one.",
+   note="Trusts CPython's line tracing and fork() as a fresh process; pre-emption only in athlib frames (not inside jsonschema/stdlib); locks, conditions, events, semaphores and queues reachable from athlib (module globals, instance and __slots__ attributes, closures, default arguments) are replaced by cooperative ones (a wait nobody can end is reported as deadlock); the oracle is the same tree run sequentially, so purely sequential bugs are invisible here."),
  "C02": dict(engine="hjsim", design_ref="DESIGN.md 4.3-4.4",
    technique="deterministic simulation: seeded multi-actor histories (officials, athletes, heckler issuing rule-violating requests) against an executable reference model; refusal atomicity by before/after snapshots",
-   text="Seeded exploration of call histories on one competition object (1-4 athletes, <=4+3 heights quick, <=8+6 thorough, <=140/250 calls; scripted competitions with a heckler, and free random walks over the whole alphabet). After every call: accepted <=> the rule-text model says legal; a refusal is a RuleViolation and leaves state, heights, cards, bests, places, log and trials bit-identical; an acceptance is logged exactly once and shows on the card; the state only moves forward. Sampling, not proof (quick 4.8e5 histories, thorough 6e6).",
+   text="Seeded exploration of call histories on one competition object (1-4 athletes, <=4+3 heights quick, <=8+6 thorough, <=140/250 calls; scripted competitions with a heckler, and free random walks over the whole alphabet). After every call: accepted <=> the rule-text model says legal; a refusal is a RuleViolation and leaves state, heights, cards, bests, places, log and trials bit-identical; an acceptance is logged exactly once and shows on the card; the state only moves forward. Every 256th run (128th thorough) cuts its history at a seeded point and tries EVERY sequence of two calls over the whole alphabet from the state reached; in 40 % of the runs calls on a second competition object of the same process are interleaved and must leave this one untouched. Sampling, not proof (quick 4.8e5 histories + ~3e5 enumerated continuations, thorough 6e6).",
    note="Trusts the reference model (simkit/hjmodel.py, ~200 lines, written from the rule text; cases the text leaves open are tolerated either way) and reads the competition phase from the implementation, validating it with necessary conditions only."),
  "C03": dict(engine="hjsim", design_ref="DESIGN.md 4.6",
    technique="deterministic simulation: seeded complete competitions with scripted ties and jump-offs; places and bests checked against countback recomputed from the result cards alone",
@@ -36,11 +36,11 @@ CHECKS = {
    note="Countback oracle and jump-off bookkeeping are the model's; jump-offs with passes or skipped attempts and competitions where nobody cleared anything are followed but not judged (text silent)."),
  "C08": dict(engine="hjsim", design_ref="DESIGN.md 4.5",
    technique="deterministic simulation with crash/recover fault injection: rebuild from the action log (then lock-step shadow) or from the exported card at seeded points, and seeded re-scheduling of the jumping order",
-   text="Seeded histories (as C02, heckled) with injected recoveries: from_actions() replicas must equal the original snapshot and stay equal call for call for the rest of the run; to_matrix()/from_matrix() round trips must reproduce state, heights, bests, places and cards modulo pass marks; the accepted history re-executed under 4 fixed adversarial and several seeded random per-height interleavings must be accepted call for call and end in the same cards, state, bests and places. Sampling, not proof (quick 1.3e5 histories with ~3e6 recoveries/re-schedules incl. every interleaving of the current height when there are at most 24, thorough 2e6 histories).",
+   text="Seeded histories (as C02, heckled) with injected recoveries: from_actions() replicas must equal the original snapshot and stay equal call for call for the rest of the run; to_matrix()/from_matrix() round trips must reproduce state, heights, bests, places and cards modulo pass marks; the accepted history re-executed under 4 fixed adversarial and several seeded random per-height interleavings must be accepted call for call and end in the same cards, state, bests and places. Every 160th run enumerates every single next call at a seeded state, each followed by a recovery from the log, from the card and every interleaving of the current height; calls on a second competition object of the same process may not disturb the original or its recovered replicas. A violation that only shows after earlier competitions of the same process is confirmed in a fresh interpreter and reported with the sequence of runs as its replay. Sampling, not proof (quick 1.3e5 histories with ~3e6 recoveries/re-schedules incl. every interleaving of the current height when there are at most 24, thorough 2e6 histories).",
    note="Equality is over public observables only (state, heights, bar, log, trials, cards, bests, places); private flags are compared indirectly through the lock-step continuation."),
  "C19": dict(engine="schemasim", design_ref="DESIGN.md 5",
    technique="deterministic simulation: seeded call histories in processes forked from a pristine importer, per-call oracle = the same call made first in a fresh process; file-open and socket seams (network permanently partitioned)",
-   text="Seeded exploration of call histories over schema_valid / valid_against_schema (13 schemas x 8 validator classes incl. three user-defined ones x expect_failure, 25 documents x 13 schemas x expect_failure; relative, absolute, bare and back-slashed file spellings; ~1 900 distinct calls): short histories biased to cache-key collisions and long ones overflowing the 20-entry caches (random, fill-then-probe, thrash). Every call's outcome must equal its fresh-process outcome; the history-free clauses (bundled valid samples validate, invalid ones do not / raise, schemas valid under Draft4, no socket touched, only repository .json files opened) are checked on the fresh table. Sampling, not proof (quick 1e4 histories / 1.7e5 calls, thorough 2e5 histories plus a fresh-interpreter cross-check of the table and diagnostic I/O-fault runs).",
+   text="Seeded exploration of call histories over schema_valid / valid_against_schema (13 schemas x 8 validator classes incl. three user-defined ones x expect_failure, 25 documents x 13 schemas x expect_failure; relative, absolute, bare and back-slashed file spellings; ~1 900 distinct calls): short histories biased to cache-key collisions (incl. both helpers on one schema file, cross use of files) and long ones overflowing the 20-entry caches (random, fill-then-probe, thrash, sweeps; bounds capped at 2/3/5 in a third). Every call's outcome must equal its fresh-process outcome; the history-free clauses (bundled valid samples validate, invalid ones do not / raise, schemas valid under Draft4, no socket touched, only repository .json files opened) are checked on the fresh table. Sampling, not proof (quick 1e4 histories / 1.7e5 calls, thorough 2e5 histories plus a fresh-interpreter cross-check of the table and diagnostic I/O-fault runs).",
    note="fork() of a never-called importer is taken as a fresh process (cross-checked in the thorough tier); exception outcomes are compared by type and message hash; injected read errors are diagnostic only because the property quantifies over histories, not I/O faults."),
 }
 
